@@ -8,10 +8,10 @@ from urllib.parse import urlsplit
 import common as C
 
 ID = 'C12'
-COQ_TARGETS = ['theories/Props/C12.vo', 'theories/Net/ReverseCases.vo']
-IMPORTS = 'From PM Require Import Lib.Bytes Lib.PyStr Net.Reverse Net.ReverseCases.'
-CASE_TYPE = 'case'
-CHECK_FN = 'check_case'
+COQ_TARGETS = ['theories/Props/C12.vo', 'theories/Net/ReverseCases.vo', 'theories/Net/ReverseConvCases.vo']
+IMPORTS = 'From PM Require Import Lib.Bytes Lib.PyStr Net.Reverse Net.ReverseCases Net.ReverseConv Net.ReverseConvCases.'
+CASE_TYPE = 'xcase'
+CHECK_FN = 'check_xcase'
 ANCHOR_FILES = ['proxy/http/server/reverse.py', 'proxy/http/server/web.py', 'proxy/http/server/plugin.py',
                 'proxy/core/base/tcp_upstream.py', 'proxy/http/parser/parser.py', 'proxy/http/url.py',
                 'proxy/common/utils.py', 'proxy/plugin/reverse_proxy.py']
@@ -23,14 +23,18 @@ RULE = ('cases = (route table, request, draws, upstream reads): 1-2 generated Re
         'handler is driven through harness/sim.py; a malformed stream adds non-UTF-8 paths, empty URL lists, before_routing hooks that drop '
         'or re-target the request, URLs with port 0 / userinfo; a multi-connection stream runs 2-4 consecutive client connections in one '
         'process against plugins written like the documented example (Url.from_bytes on a constant, edited in place) and against the '
-        'shipped proxy.plugin.ReverseProxyPlugin, each connection compared with what its request ALONE must produce. A case is non-trivial when a request reached an upstream '
+        'shipped proxy.plugin.ReverseProxyPlugin, each connection compared with what its request ALONE must produce; a conversation stream sends 2-4 complete '
+        'requests over ONE client connection, each after the previous exchange is over (same / other route whose upstream differs in port only, host only or both / '
+        'no route / literal route, keep-alive and Connection: close / HTTP/1.0 / websocket-upgrade variants, connect failures, upstream EOF) and compares connect log, '
+        'connects per request, wrap log, bytes received by EVERY upstream socket and client bytes with the connection-level model Net/ReverseConv.v. A case is non-trivial when a request reached an upstream '
         '(connect attempted and bytes delivered) or a literal/404 answer was produced; distinct = distinct (table, request, draws)')
 TRUSTED = ['Python re (route matching) enters the model as the oracle re_match; the harness computes the match table with the real re',
            'Url.from_bytes is not modelled here: the model takes the parsed components; every generated URL is compared with Url.from_bytes and urllib on every run',
            'TLS wrap of https upstreams is patched to a recorder (hostname logged); the handshake itself is outside the model',
            'reference request parser ref_parse (second half of Net/Reverse.v) as the reading of RFC 7230 section 3; cross-validated by h11 on what the fake upstream received',
            'relay of queued bytes to the sockets (flush, short writes) is C01; here every send is accepted in full']
-ASSUMPTIONS = ['first request of a client connection (a second keep-alive request replaces self.upstream: known defect owned by C04/C10)',
+ASSUMPTIONS = ['later requests of a connection: each is a complete request arriving in one segment after the previous exchange is over (two requests in one segment, '
+               'a later request cut in pieces: C04); that every later request replaces self.upstream without closing the previous object is modelled, not judged (C04/C10 findings)',
                'ReverseProxy is the only HttpWebServerBasePlugin, static server disabled, plugins keep the default protocols()',
                'handle_route is a pure function of the request; configured URLs are well-formed scheme://host[:port][/path]']
 SHARD = 40
@@ -230,6 +234,9 @@ def generate(rng, tier):
         first = rng.choice([q for q in pool if re.search(rb'\d$', q)])
         conns = [conn(first)] + [conn(rng.choice(pool)) for _ in range(rng.choice([1, 2, 3]))]
         cases.append(dict(kind='multi-conn', rewrite=rng.random() < 0.5, plugins=plugins, conns=conns))
+    # conversations: 2-4 complete requests over ONE client connection, each after the previous exchange is over
+    for _ in range(24 if quick else 500):
+        cases.append(dict(kind='conversation', conv=mk_conv(rng)))
     # malformed stream
     for _ in range(30 if quick else 600):
         c = mk_case(rng, 'any', weird=True)
@@ -259,6 +266,75 @@ def generate(rng, tier):
         c['kind'] = 'malformed'
         cases.append(c)
     return cases
+
+
+def mk_conv(rng):
+    """one client connection carrying several requests.  One plugin (the documented configuration; with several plugins a
+    literal answer and an upstream can fall into the same call, whose flush order is the handler's business: C01/C07).
+    Half of the tables get an extra first route whose upstream differs from another route's only in the PORT, only in the
+    host, or in both (seeded change C12-r3-1 reused the previous upstream when only the host matched)."""
+    import copy
+    while True:
+        c = mk_case(rng, rng.choice(['one', 'one', 'several']))
+        if len(c['plugins']) == 1 and not any(r['type'] == 'dynamic' and 'exc' in r['ret'] and rng.random() < 0.8 for r in c['plugins'][0]['routes']):
+            break
+    p0 = copy.deepcopy(c['plugins'][0])
+    path1 = c['request']['target']
+    extra = None
+    if rng.random() < 0.6:
+        r0 = next((r for r in p0['routes'] if re.compile(r['regex']).match(path1.decode('latin-1')) and r.get('urls')), None)
+        if r0 is not None:
+            u0 = r0['urls'][0]
+            u2 = dict(u0)
+            how = rng.choice(['port', 'port', 'host', 'both'])
+            if how in ('port', 'both'):
+                u2['port'] = rng.choice([x for x in (81, 8080, 8443, 65535, 1) if x != default_port(u0)])
+            if how in ('host', 'both'):
+                u2['host'] = rng.choice([h for h in ('up1.example', 'up2.example', '10.0.0.7', '[::1]') if h != u0['host']])
+            u2 = dict(u2, path=rng.choice(['/second', None, '/s?x=1']), userinfo=None, raw=None)
+            if rng.random() < 0.3:
+                u2['scheme'] = 'https' if u0['scheme'] == 'http' else 'http'
+            extra = b'/zz-second'
+            p0['routes'] = [dict(type='static', regex=r'/zz-second$', urls=[u2] + ([dict(u0)] if rng.random() < 0.3 else []))] + p0['routes']
+    plugins = [p0]
+
+    def simple(target):
+        return dict(method=rng.choice([b'GET', b'GET', b'DELETE', b'HEAD']), target=target, version=b'HTTP/1.1',
+                    headers=[[rng.choice(HOST_SPELLINGS), b'me.example']] + [list(h) for h in rng.sample(HDR_POOL[:8], rng.randrange(0, 3))]
+                            + ([[rng.choice([b'Connection', b'connection']), rng.choice([b'keep-alive', b'Keep-Alive'])]] if rng.random() < 0.2 else []),
+                    body=b'', chunked=False)
+
+    def later_target():
+        r = rng.random()
+        if extra and r < 0.4:
+            return extra
+        if r < 0.65:
+            return path1
+        return rng.choice(PATHS)
+
+    n = rng.choice([2, 2, 3, 3, 4])
+    reqs = []
+    for i in range(n):
+        t = path1 if i == 0 else later_target()
+        if i == 0 and extra and rng.random() < 0.3:
+            t = extra
+        q = rng.random()
+        if q < 0.7:
+            rq = simple(t)
+        else:
+            rq = rand_request(rng, t)          # bodies, chunked, HTTP/1.0, Connection: close, websocket upgrade ...
+        if i > 0 and rng.random() < 0.08:
+            rq['headers'] = [h for h in rq['headers'] if h[0].lower() != b'connection'] + [[b'Connection', rng.choice([b'close', b'Close'])]]
+        reqs.append(rq)
+    reads = []
+    for i in range(n):
+        rd = [x for x in rand_reads(rng) if not isinstance(x, str)]
+        if i > 0 and rng.random() < 0.07:
+            rd.append(rng.choice(['eof', 'reset']))
+        reads.append(rd)
+    connect = ['ok' if (i == 0 or rng.random() < 0.93) else rng.choice(['refused', 'unreach']) for i in range(n)]
+    return dict(plugins=plugins, rewrite=rng.random() < 0.5, draws=[rng.randrange(0, 7) for _ in range(6)], requests=reqs,
+                reads=reads, connect=connect, packing='separate')
 
 
 # ----------------------------------------------------------------- implementation
@@ -537,28 +613,22 @@ def match_table(case, out):
     return C.coq_list(tbl)
 
 
-def coq_term(case, out):
-    if case.get('kind') == 'conversation':
-        return None          # later requests are outside the model (oracle only)
-    if 'conns' in case:
-        ts = [coq_term(subcase(case, k), o) for k, o in enumerate(out['conns'])]
-        return [t for t in ts if t is not None]
-    if out.get('snap') is None:
-        return None       # the request never reached the web server plugin: outside the model
+def coq_plugins(plugins, urls):
+    """the route tables as Coq terms (patterns are indices in table order); None when a configured URL does not parse"""
     idx = 0
     ps = []
-    for p in case['plugins']:
+    for p in plugins:
         rts = []
         for r in p['routes']:
             if r['type'] == 'static':
-                us = [out['urls'][url_bytes(u).hex()] for u in r['urls']]
+                us = [urls[url_bytes(u).hex()] for u in r['urls']]
                 if any('error' in x for x in us):
                     return None
                 rts.append('Static %d %s' % (idx, C.coq_list(coq_url(x) for x in us)))
             else:
                 ret = r['ret']
                 if 'url' in ret:
-                    x = out['urls'][url_bytes(ret['url']).hex()]
+                    x = urls[url_bytes(ret['url']).hex()]
                     if 'error' in x:
                         return None
                     body = 'Ok (DUrl %s)' % coq_url(x)
@@ -571,26 +641,101 @@ def coq_term(case, out):
         b = p.get('before')
         bf = '(fun r => Some r)' if not b else '(fun _ => None)' if b == 'drop' else '(fun r => Some (set_path r (Some %s)))' % C.coq_bytes(bytes(b[1]))
         ps.append('mkPlugin %s %s' % (bf, C.coq_list(rts)))
-    cfg = '(mkConfig %s %d %s %s)' % (C.coq_bool(out['rewrite_flag']), out['chunk_size'],
-                                      C.coq_list(C.coq_bytes(x) for x in out['disable_headers']), C.coq_bytes(out['agent']))
-    co = {'ok': 'ConnOk', 'refused': 'ConnRefused'}.get(case.get('connect', 'ok'), '(ConnErr (OSError 0))')
+    return C.coq_list(ps)
+
+
+def coq_cfg(out):
+    return '(mkConfig %s %d %s %s)' % (C.coq_bool(out['rewrite_flag']), out['chunk_size'],
+                                       C.coq_list(C.coq_bytes(x) for x in out['disable_headers']), C.coq_bytes(out['agent']))
+
+
+def coq_reads(reads):
+    return C.coq_list('REof' if x == 'eof' else 'RReset' if x == 'reset' else 'RTimeout' if x == 'timeout' else '(RData %s)' % C.coq_bytes(x)
+                      for x in reads)
+
+
+def coq_conn_outcome(kind):
+    return {'ok': 'ConnOk', 'refused': 'ConnRefused'}.get(kind, '(ConnErr (OSError 0))')
+
+
+def coq_term(case, out):
+    if case.get('kind') == 'conversation':
+        return conv_term(case['conv'], out)
+    if 'conns' in case:
+        ts = [coq_term(subcase(case, k), o) for k, o in enumerate(out['conns'])]
+        return [t for t in ts if t is not None]
+    if out.get('snap') is None:
+        return None       # the request never reached the web server plugin: outside the model
+    ps = coq_plugins(case['plugins'], out['urls'])
+    if ps is None:
+        return None
     wo = '(Ok tt)' if case.get('wrap', 'ok') == 'ok' else '(Err (OSError 0))'
-    reads = C.coq_list('REof' if x == 'eof' else 'RReset' if x == 'reset' else 'RTimeout' if x == 'timeout' else '(RData %s)' % C.coq_bytes(x)
-                       for x in case.get('reads', []))
     exp = '(mkExp %d %s %s %s %s %d %d %s)' % (
         out['code'], C.coq_list('A %s %d' % (C.coq_bytes(h.encode()), p) for h, p in out['connect_log']),
         C.coq_list(C.coq_bytes((w[0] or '').encode()) for w in out['wrap_log']),
         C.coq_bytes(b''.join(out['up'])), C.coq_bytes(out['client']), out['draws'], out['code_after'], C.coq_bytes(out['client_after']))
-    return 'CReq %s %s %s %s %s %s %s %s %s' % (cfg, match_table(case, out), C.coq_list(ps), co, wo, coq_request(out['snap']),
-                                               C.coq_list('%d%%nat' % d for d in case['draws']), reads, exp)
+    return 'XReq (CReq %s %s %s %s %s %s %s %s %s)' % (coq_cfg(out), match_table(case, out), ps, coq_conn_outcome(case.get('connect', 'ok')), wo,
+                                                      coq_request(out['snap']), C.coq_list('%d%%nat' % d for d in case['draws']),
+                                                      coq_reads(case.get('reads', [])), exp)
+
+
+def conv_reads(conv, i):
+    """the scripted upstream reads that follow request i (older conversation cases carry one whole response per request)"""
+    if 'reads' in conv:
+        return list(conv['reads'][i]) if i < len(conv['reads']) else []
+    return [conv['responses'][i]] if i < len(conv.get('responses', [])) else []
+
+
+def conv_connect(conv, i):
+    cs = conv.get('connect') or []
+    return cs[i] if i < len(cs) else 'ok'
+
+
+def conv_term(conv, o):
+    """Coq side of a conversation: the requests that were handed in (the implementation stops at the first teardown), each
+    with its raw segment, parsed form, connect outcome and the reads that followed, and everything observable at the end"""
+    steps = o.get('steps') or []
+    if conv.get('packing') == 'one-segment' or 'exception' in o or not steps or 'urls' not in o:
+        return None          # two requests in one segment / a get_events() escape: outside the connection-level model
+    if any(st.get('snap') is None or 'n_connect' not in st for st in steps):
+        return None
+    ps = coq_plugins(conv['plugins'], o['urls'])
+    if ps is None:
+        return None
+    # match table: every (route, path) pair that Python's re matches, over the paths of all requests
+    texts = set()
+    for st in steps:
+        p0 = st['snap']['path']
+        texts.add(p0 if p0 else b'/')
+    tbl, idx = [], 0
+    for p in conv['plugins']:
+        for r in p['routes']:
+            for t in sorted(texts):
+                try:
+                    if re.compile(r['regex']).match(t.decode()):
+                        tbl.append('M %d %s' % (idx, C.coq_bytes(t)))
+                except UnicodeDecodeError:
+                    pass
+            idx += 1
+    arrs = []
+    for i, st in enumerate(steps):
+        arrs.append('AR %s %s %s (Ok tt) %s' % (C.coq_bytes(wire(conv['requests'][i])), coq_request(st['snap']),
+                                               coq_conn_outcome(conv_connect(conv, i)), coq_reads(conv_reads(conv, i))))
+    exp = '(mkCExp %d %s %s %s %s %s %d)' % (
+        steps[-1]['code'], C.coq_list('A %s %d' % (C.coq_bytes(str(h).encode()), p) for h, p in o['connect_log']),
+        C.coq_list('%d' % st['n_connect'] for st in steps),
+        C.coq_list(C.coq_bytes((w or '').encode()) for w in o['wrap_log']),
+        C.coq_list(C.coq_bytes(x) for x in o['up_out_end']), C.coq_bytes(o['client']), o['draws'])
+    return 'XConv %s %s %s (%s) %s %s %s' % (coq_cfg(o), C.coq_list(tbl), ps, arrs[0], C.coq_list(arrs[1:]),
+                                            C.coq_list('%d%%nat' % d for d in conv['draws']), exp)
 
 
 def model_expr(case):
     out = run_impl(case)
     t = coq_term(case, out)
     if isinstance(t, list):
-        return C.coq_list('run_case (%s)' % x for x in t) if t else 'tt'
-    return 'run_case (%s)' % t if t else 'tt'
+        return C.coq_list('run_xcase (%s)' % x for x in t) if t else 'tt'
+    return 'run_xcase (%s)' % t if t else 'tt'
 
 
 # ----------------------------------------------------------------- the property on the implementation
@@ -788,7 +933,7 @@ def _oracle_main(case, out):
 
 def nontrivial(case, out):
     if case.get('kind') == 'conversation':
-        return False
+        return len(out.get('steps', [])) >= 2 and bool(out.get('connect_log'))
     if 'conns' in case:
         return any(nontrivial(subcase(case, k), o) for k, o in enumerate(out['conns']))
     return out.get('snap') is not None and (bool(out.get('connect_log')) and any(out.get('up', [])) or bool(out.get('client')))
@@ -873,23 +1018,67 @@ def search(rng, tier, mismatching_cases):
 
 # ----------------------------------------------------------------- exploration beyond the theorems' scope
 def run_conversation(conv):
-    """several requests over ONE client connection (outside the scope of the theorems: exploration only)"""
+    """several requests over ONE client connection.  packing 'separate': each request is fed after the previous exchange is
+    over (request flushed to the upstream, the scripted upstream reads relayed); 'one-segment': all requests in one segment
+    (exploration only).  Recorded per request: outcome code after the request and its reads, number of connect attempts so
+    far, the parsed request as the implementation saw it (snapshot at on_request_complete / at the entry of
+    ReverseProxy.handle_request; a later request the code never parses is parsed here with a fresh HttpParser, exactly as
+    web.py would)."""
     import sim, logging
+    from proxy.http import Url
+    from proxy.http.parser import HttpParser, httpParserTypes
+    from proxy.http.server.web import HttpWebServerPlugin
+    from proxy.http.server.reverse import ReverseProxy
+    from proxy.common.constants import PROXY_AGENT_HEADER_VALUE, DEFAULT_BUFFER_SIZE, DEFAULT_DISABLE_HEADERS
     classes = [mk_plugin_class(i, p) for i, p in enumerate(conv['plugins'])]
     args = ['--enable-reverse-proxy', '--log-level', 'c'] + (['--rewrite-host-header'] if conv['rewrite'] else [])
     fl = sim.make_flags(args=args, plugins=classes)
     logging.disable(logging.CRITICAL)
     draws = list(conv['draws'])
+    obs = dict(steps=[], agent=PROXY_AGENT_HEADER_VALUE, chunk_size=DEFAULT_BUFFER_SIZE, disable_headers=list(DEFAULT_DISABLE_HEADERS),
+               rewrite_flag=bool(fl.rewrite_host_header), urls={}, draws=0, wrap_log=[])
+    for u in all_urls(conv):
+        ub = url_bytes(u)
+        try:
+            x = Url.from_bytes(ub)
+            obs['urls'][ub.hex()] = dict(scheme=x.scheme, hostname=x.hostname, port=x.port, remainder=x.remainder)
+        except Exception as e:
+            obs['urls'][ub.hex()] = dict(error=C.exn_code(e))
+    cur = dict(snap=None)
 
     def choice(seq):
+        obs['draws'] += 1
         r = draws.pop(0) if draws else 0
+        if not len(seq):
+            raise IndexError('Cannot choose from an empty sequence')
         return seq[r % len(seq)]
 
     def wrap(self, hostname=None, ca_file=None, as_non_blocking=False, **kw):
-        pass
+        obs['wrap_log'].append(hostname)
 
-    obs = dict(steps=[])
+    orig_orc = HttpWebServerPlugin.on_request_complete
+    orig_hr = ReverseProxy.handle_request
+
+    def orc(self):
+        if cur['snap'] is None:
+            cur['snap'] = snapshot_request(self.request)
+        return orig_orc(self)
+
+    def hr(self, request):
+        if cur['snap'] is None:
+            cur['snap'] = snapshot_request(request)
+        return orig_hr(self, request)
+
+    def fresh_snapshot(raw):
+        try:
+            p = HttpParser(httpParserTypes.REQUEST_PARSER)
+            p.parse(memoryview(raw))
+            return snapshot_request(p) if p.is_complete and not p.buffer else None
+        except Exception:
+            return None
+
     with mock.patch('random.choice', choice), mock.patch('proxy.core.connection.server.TcpServerConnection.wrap', wrap), \
+         mock.patch.object(HttpWebServerPlugin, 'on_request_complete', orc), mock.patch.object(ReverseProxy, 'handle_request', hr), \
          sim.Sim(flags=fl) as s:
         try:
             if conv.get('packing') == 'one-segment':
@@ -901,19 +1090,32 @@ def run_conversation(conv):
                     if s.torn:
                         break
                     before_c = len(s.client.out)
+                    cur['snap'] = None
+                    ck = conv_connect(conv, i)
+                    s.connect_script = [sim.io_error(ck)] if ck != 'ok' else []
                     s.client.feed(wire(rq))
                     res = s.run()
-                    st = dict(res=repr(res), n_up=len(s.upstreams), answered=len(s.client.out) > before_c)
-                    if s.upstreams and not s.torn and i < len(conv['responses']):
+                    st = dict(res=repr(res), code=code_of(res), n_up=len(s.upstreams), answered=len(s.client.out) > before_c,
+                              n_connect=len(s.connect_log), snap=cur['snap'] or fresh_snapshot(wire(rq)))
+                    reads = conv_reads(conv, i)
+                    if s.upstreams and not s.torn and st['code'] == 0 and reads:
                         before = len(s.client.out)
-                        n_before = len(s.upstreams[-1].out)
-                        s.upstreams[-1].feed(conv['responses'][i])
-                        st['res2'] = repr(s.run())
-                        st['relayed'] = s.client.out[before:] == conv['responses'][i]
+                        for item in reads:
+                            if s.torn:
+                                break
+                            s.upstreams[-1].feed(sim.EOF if item == 'eof' else sim.io_error(item) if isinstance(item, str) else item)
+                            r2 = s.run()
+                            st['res2'] = repr(r2)
+                            if code_of(r2) != 0:
+                                st['code'] = code_of(r2)
+                                break
+                        st['relayed'] = s.client.out[before:] == b''.join(x for x in reads if not isinstance(x, str))
                     st['up_out'] = [u.out for u in s.upstreams]
                     st['up_closed'] = [u.closed for u in s.upstreams]
                     st['interest'] = dict(s.interest()[0]) if not s.torn else {}
                     obs['steps'].append(st)
+                    if st['code'] != 0:
+                        break
         except Exception as e:
             obs['exception'] = repr(e)
         if not s.torn:
@@ -922,6 +1124,7 @@ def run_conversation(conv):
             except Exception as e:
                 obs['teardown_exc'] = repr(e)
         obs['up_closed_end'] = [u.closed for u in s.upstreams]
+        obs['up_out_end'] = [u.out for u in s.upstreams]
         obs['connect_log'] = [list(x) for x in s.connect_log]
         obs['client'] = s.client.out
         obs['trace'] = [list(t) for t in s.trace]
@@ -929,31 +1132,64 @@ def run_conversation(conv):
     return obs
 
 
+def keep_alive_ref(rq):
+    """HTTP/1.1 persistence as the client asked for it (RFC 7230 6.3, for the spellings generated here): version 1.1 and
+    no Connection header other than keep-alive.  Independent of the model."""
+    vals = [v.strip().lower() for k, v in rq['headers'] if k.lower() == b'connection']
+    return rq['version'] == b'HTTP/1.1' and all(v == b'keep-alive' for v in vals)
+
+
 def conv_oracle(conv, o):
-    """property oracle for a LATER request whose predecessor was answered completely: it is connected to the host and port
-    of one of ITS route's upstream URLs and reaches that upstream (what happens to the previous upstream socket is the
-    recorded C04/C10 finding and is not judged here)"""
-    if conv.get('packing') == 'one-segment' or 'exception' in o or len(o.get('steps', [])) < 2:
+    """property oracle for every LATER request whose predecessors were answered completely on a connection the client kept
+    alive: it causes exactly one outbound connection, to the host and port of one of ITS OWN route's upstream URLs, and
+    reaches that upstream (what happens to the previous upstream socket is the recorded C04/C10 finding and is not judged
+    here; a later request that says Connection: close / HTTP/1.0 is connected but torn down before it is sent - the routing
+    part is judged, the delivery part is C04's)"""
+    steps = o.get('steps', [])
+    if conv.get('packing') == 'one-segment' or 'exception' in o or len(steps) < 2:
         return None
-    rq2 = conv['requests'][1]
-    c2 = dict(plugins=conv['plugins'], rewrite=conv['rewrite'], request=rq2)
-    if n_matching(conv['plugins'], rq2['target']) < 1 or not in_domain(c2):
-        return None
-    fired2 = expected_target(c2) or []
-    r2 = fired2[0] if fired2 else None
-    if r2 is None or r2['type'] != 'static' or not r2.get('urls') or len(o['connect_log']) < 1:
-        return None
-    s2 = o['steps'][1]
-    want = {(u['host'].strip('[]'), default_port(u)) for u in r2['urls']}
-    got = tuple(o['connect_log'][-1][:2]) if len(o['connect_log']) >= 2 else None
-    fwd = s2['up_out'][-1] if s2.get('up_out') else b''
-    if got is None:
-        return ('the second request of the connection (%r, matching route %r -> %s) caused no outbound connection of its own; '
-                'connect log %r' % (rq2['target'], r2['regex'], sorted(want), o['connect_log']))
-    if (str(got[0]).strip('[]'), int(got[1])) not in want:
-        return 'the second request of the connection (%r) was connected to %r, its route names %s' % (rq2['target'], got, sorted(want))
-    if not bytes(fwd).startswith(bytes(rq2['method']) + b' '):
-        return 'the second request of the connection (%r) did not reach the upstream it was connected to' % (rq2['target'],)
+    if not keep_alive_ref(conv['requests'][0]):
+        return None           # the client did not ask for a persistent connection: what follows is not a request to judge
+    for i in range(1, len(steps)):
+        rq = conv['requests'][i]
+        if not keep_alive_ref(conv['requests'][i - 1]) and i > 1:
+            return None
+        ci = dict(plugins=conv['plugins'], rewrite=conv['rewrite'], request=rq)
+        if n_matching(conv['plugins'], rq['target']) < 1 or not in_domain(ci) or conv_connect(conv, i) != 'ok':
+            continue
+        fired = expected_target(ci) or []
+        url_routes = [r for r in fired if r['type'] == 'static' or 'url' in r['ret']]
+        if not url_routes or len(fired) != 1:
+            continue          # literal answers / several plugins firing: covered for first requests; not judged here
+        r = url_routes[-1]
+        cands = r['urls'] if r['type'] == 'static' else [r['ret']['url']]
+        want = {(u['host'].strip('[]'), default_port(u)) for u in cands}
+        si = steps[i]
+        if 'n_connect' in si and 'n_connect' in steps[i - 1]:
+            mine = o['connect_log'][steps[i - 1]['n_connect']:si['n_connect']]
+        else:
+            mine = o['connect_log'][-1:] if len(o['connect_log']) >= 2 else []
+        nth = 'request %d of the connection (%r, matching route %r -> %s)' % (i + 1, rq['target'], r['regex'], sorted(want))
+        if len(mine) == 0:
+            return '%s caused no outbound connection of its own; connect log %r' % (nth, o['connect_log'])
+        if len(mine) > 1:
+            return '%s caused %d outbound connections: %r' % (nth, len(mine), mine)
+        got = mine[0]
+        if (str(got[0]).strip('[]'), int(got[1])) not in want:
+            return '%s was connected to %r' % (nth, tuple(got[:2]))
+        if r['type'] == 'static' and 'draws' in o and len(conv['plugins']) == 1:
+            # the scripted draw decides which URL exactly: count the static routes that fired for the earlier requests
+            k = 0
+            for j in range(i):
+                fj = expected_target(dict(plugins=conv['plugins'], request=conv['requests'][j])) or []
+                k += sum(1 for q in fj if q['type'] == 'static')
+            u = cands[(conv['draws'][k] if k < len(conv['draws']) else 0) % len(cands)]
+            if (u['host'].strip('[]'), default_port(u)) != (str(got[0]).strip('[]'), int(got[1])):
+                return '%s: random.choice picked %r but the connection went to %r' % (nth, url_bytes(u), tuple(got[:2]))
+        if keep_alive_ref(rq):
+            fwd = si['up_out'][-1] if si.get('up_out') else b''
+            if not bytes(fwd).startswith(bytes(rq['method']) + b' '):
+                return '%s did not reach the upstream it was connected to' % nth
     return None
 
 
@@ -978,7 +1214,7 @@ def extra_checks(rng, tier):
             failures.append(dict(case=c, out=out, what=f))
             if len(failures) >= 3:
                 break
-    # (2) conversations: 2-3 requests on one client connection (known defect territory; observations only)
+    # (2) conversations: 2 requests on one client connection, oracle only (incl. both requests in ONE segment, which the model does not cover)
     stats = collections.Counter()
     resp = b'HTTP/1.1 200 OK\r\nContent-Length: 2\r\n\r\nhi'
     nconv = 40 if quick else 600
@@ -1042,5 +1278,5 @@ def extra_checks(rng, tier):
         else:
             stats['2nd request path undecodable'] += 1
     notes.append('oracle-only sweep: %d further first-request cases, %d failures; kinds %s' % (sum(kinds.values()), len(failures), dict(kinds)))
-    notes.append('multi-request exploration (outside the theorems, known defect owned by C04/C10): ' + json.dumps(dict(stats), sort_keys=True))
+    notes.append('multi-request exploration, implementation only (conversations in separate segments are also compared with the model Net/ReverseConv.v in the conversation stream; one-segment packing and the fate of the replaced upstream socket are C04/C10 findings): ' + json.dumps(dict(stats), sort_keys=True))
     return dict(failures=failures, notes=notes, oracle_only_cases=sum(kinds.values()), conversation_stats=dict(stats))
